@@ -161,7 +161,7 @@ mod vk_cloned {
         assert!(d == copy, "[C13 source-untouched] the source elements are neither modified nor moved");
     }
 
-    // @harness name=cloned_iter_pulls props=C13,C06 kind=bounded bound="wrapped iterator of references of length 3; up to 1 earlier single pull, optional skip_to_end, then one single / chunk(2) / buffered(2) pull (real atomics, sequential)"
+    // @harness name=cloned_iter_pulls props=C13,C06,C16 kind=bounded bound="wrapped iterator of references of length 3; up to 1 earlier single pull, optional skip_to_end, then one single / chunk(2) / buffered(2) pull or an empty chunk request followed by a single pull (real atomics, sequential)"
     #[kani::proof]
     #[kani::unwind(6)]
     fn cloned_iter_pulls() {
@@ -174,8 +174,9 @@ mod vk_cloned {
         let skip: bool = kani::any();
         if skip { x.skip_to_end(); y.skip_to_end(); }
         let op: u8 = kani::any();
-        kani::assume(op < 3);
+        kani::assume(op < 4);
         kani::cover!(skip && op == 2, "buffered pull after skip_to_end");
+        kani::cover!(!skip && op == 3, "empty request");
         kani::cover!(!skip && op == 2 && pre, "buffered pull in the middle");
         if op == 0 {
             match (x.next_id_and_value(), y.next_id_and_value()) {
@@ -193,6 +194,15 @@ mod vk_cloned {
                 (None, None) => {}
                 _ => assert!(false, "[C13 same-end] the adaptor reports the end exactly when the underlying iterator does"),
             };
+        } else if op == 3 {
+            // an empty request is not the end of the source -- through the adaptor either
+            let (a, b) = (x.next_chunk(0).map(|c| c.begin_idx), y.next_chunk(0).map(|c| c.begin_idx));
+            assert!(a == b, "[C13 C16 same-empty-request] next_chunk(0) through the adaptor answers as the underlying iterator does");
+            match (x.next_id_and_value(), y.next_id_and_value()) {
+                (Some(a), Some(b)) => { assert!(a.idx == b.idx && *a.value == b.value, "[C13 C16 same-after-empty-request] after an empty request the adaptor still delivers what the underlying iterator delivers"); }
+                (None, None) => {}
+                _ => assert!(false, "[C13 C16 C05 same-after-empty-request] an empty request through the adaptor does not end the iteration"),
+            }
         } else {
             let mut bx = x.buffered_iter(2);
             let mut by = y.buffered_iter(2);
